@@ -33,8 +33,8 @@ SIG = {
 }
 
 HELPERS = '''
-fn raw_call(sel: Bytes, data: Bytes) -> Bytes {
-    call_with_function_selector(ContractId::from(CONTRACT_ID), sel, data, CallParams { coins: 0, asset_id: AssetId::from(b256::zero()), gas: 18446744073709551615 });
+fn raw_call(id: b256, sel: Bytes, data: Bytes) -> Bytes {
+    call_with_function_selector(ContractId::from(id), sel, data, CallParams { coins: 0, asset_id: AssetId::from(b256::zero()), gas: 18446744073709551615 });
     let ptr = asm() { ret: raw_ptr };
     let len = asm() { retl: u64 };
     Bytes::from(raw_slice::from_parts::<u8>(ptr, len))
@@ -117,7 +117,7 @@ def render_contract(rec):
             elif call["kind"] == "wide":
                 body.append("log(w.%s());" % call["sel"])
             else:
-                body.append("log(raw_call(%s, %s));" % (arr40(call["blob"]), arr40(call["argbytes"])))
+                body.append("log(raw_call(CONTRACT_ID, %s, %s));" % (arr40(call["blob"]), arr40(call["argbytes"])))
         out.append("#[test]\nfn t%d() {\n    %s\n}" % (t, "\n    ".join(body)))
     return "\n".join(out) + "\n"
 
@@ -165,12 +165,15 @@ def run(ctx):
             ctx.report("model:" + r.violated, "Dispatch.tla violates its own invariant " + r.violated,
                        {"tlc": r.counterexample()[:6000]})
     cov = mc.coverage_actions()
-    if not cov.get("Call", (0, 0))[0]:
+    if not cov.get("Next", (0, 0))[0]:       # Next = bounded Call(sel, args)
         raise ToolError("action Call never fired: %s" % cov)
     # binding of the model: a dispatcher that compares only the arm's length-prefix (no length test) is refuted
-    mut = ctx.tlc("MC_Dispatch", "MC_Dispatch_mut_nolen", workers=2, xss="64m", count=False)
-    if mut.violated != "InvMutExact":
-        raise ToolError("the mutant dispatcher (no length comparison) was not refuted by TLC: %s" % mut.violated)
+    mut_violated = "not run in the quick tier"
+    if not ctx.quick:
+        mut = ctx.tlc("MC_Dispatch", "MC_Dispatch_mut_nolen", workers=2, xss="64m", count=False)
+        if mut.violated != "InvMutExact":
+            raise ToolError("the mutant dispatcher (no length comparison) was not refuted by TLC: %s" % mut.violated)
+        mut_violated = mut.violated
     # 2. conformance pool
     gen = ctx.tlc("MC_Dispatch", "Gen_Dispatch", workers=1, xss="64m", count=False)
     pool = sorted(gen.printed("REPLAY"), key=lambda r: r["id"])
@@ -183,36 +186,36 @@ def run(ctx):
         raise ToolError("workspace failed to build/run: %s" % json.dumps(failures)[:6000])
     byid = {r["id"]: r for r in recs}
     trs = [t for r in recs for t in trace_records(r, built["c11m%d" % r["id"]])]
-    # 4. trace validation
-    validated, rejected = cg.validate_all(ctx, "Trace_Dispatch", "Trace_Dispatch", trs, shard=600, par=4)
+    # 4. trace validation; the binding self-test rides along: corrupted copies of one record must be rejected
+    cand = [t for t in trs if t["out"] == "return" and len(t["calls"]) >= 2]
+    base = cand[len(cand) // 2]
+    muts = []
+    m = json.loads(json.dumps(base)); m["obs"][1][0][7] ^= 1; muts.append(m)              # a counter in a snapshot
+    m = json.loads(json.dumps(base)); m["obs"][0][1][-1] ^= 1; muts.append(m)             # a returned byte
+    m = json.loads(json.dumps(base)); m["out"] = "revert"; muts.append(m)                 # the outcome
+    m = json.loads(json.dumps(base)); m["calls"][0], m["calls"][1] = m["calls"][1], m["calls"][0]
+    if m["calls"][0] != m["calls"][1]:
+        muts.append(m)                                                                    # the order of calls
+    for m in muts:
+        m["mut"] = True
+    validated, rejected = cg.validate_all(ctx, "Trace_Dispatch", "Trace_Dispatch", trs + muts, shard=700, par=4)
+    mut_rej = [x for x in rejected if x[0].get("mut")]
+    rejected = [x for x in rejected if not x[0].get("mut")]
+    validated -= len(muts) - len(mut_rej)
     for tr, why in rejected:
         rec = byid[tr["id"]]
         ctx.report(test_key(rec, tr["test"]), "contract call sequence disagrees with Dispatch.tla",
                    {"record": tr, "source": render_contract(rec)})
-    # binding self-test: corrupted observations must be rejected
-    rej_ids = {(x[0]["id"], x[0]["test"]) for x in rejected}
-    good = [t for t in trs if (t["id"], t["test"]) not in rej_ids and t["out"] == "return" and len(t["calls"]) >= 2]
-    selftest = 0
-    if good:
-        base = good[len(good) // 2]
-        muts = []
-        m = json.loads(json.dumps(base)); m["obs"][1][0][7] ^= 1; muts.append(m)              # a counter in a snapshot
-        m = json.loads(json.dumps(base)); m["obs"][0][1][-1] ^= 1; muts.append(m)             # a returned byte
-        m = json.loads(json.dumps(base)); m["out"] = "revert"; muts.append(m)                 # the outcome
-        m = json.loads(json.dumps(base)); m["calls"][0], m["calls"][1] = m["calls"][1], m["calls"][0]
-        if m["calls"][0] != m["calls"][1]:
-            muts.append(m)                                                                    # the order of calls
-        v, rej = cg.validate_all(ctx, "Trace_Dispatch", "Trace_Dispatch", [base] + muts, name="selftest")
-        if v != 1 or len(rej) != len(muts):
-            raise ToolError("binding self-test: %d of %d corrupted records were rejected" % (len(rej), len(muts)))
-        selftest = len(rej)
+    if not any(x[0] is base for x in rejected) and len(mut_rej) != len(muts):
+        raise ToolError("binding self-test: %d of %d corrupted records were rejected" % (len(mut_rej), len(muts)))
+    selftest = len(mut_rej)
     ncalls = sum(len(t["calls"]) for t in trs)
     return ctx.finish("model_checking", {
         "traces_validated_against_impl": validated,
         "contracts_built_and_deployed": len(recs), "pool_size": len(pool), "tests_run": len(trs), "calls": ncalls,
         "calls_by_kind": {k: sum(1 for t in trs for c in t["calls"] if c["kind"] == k) for k in ("typed", "wide", "raw")},
         "tests_reverted": sum(1 for t in trs if t["out"] == "revert"),
-        "mutant_model_refuted_by": mut.violated, "binding_selftests_rejected": selftest,
+        "mutant_model_refuted_by": mut_violated, "binding_selftests_rejected": selftest,
         "action_coverage": cov,
         "samples": [{"contract": test_key(byid[trs[0]["id"]], 0), "obs": [[bytes(x).hex() for x in o] for o in trs[0]["obs"]], "out": trs[0]["out"]},
                     {"contract": test_key(byid[trs[-1]["id"]], trs[-1]["test"]), "obs": [[bytes(x).hex() for x in o] for o in trs[-1]["obs"]], "out": trs[-1]["out"]}],
